@@ -29,6 +29,8 @@ def cmd_check(args):
         traceback.print_exc()
         ck.errors.append('pack crashed: ' + traceback.format_exc().splitlines()[-1])
     ck.only, ck.show = args.only, args.show
+    if args.job:
+        ck.jobs = [j for j in ck.jobs if args.job in (j['func_name'] + '#' + j['label'])]
     rc = ck.finish()
     if args.verbose:
         for o in ck.obligations:
@@ -83,6 +85,7 @@ def main():
     c.add_argument('--only', default=None)
     c.add_argument('--list', action='store_true')
     c.add_argument('--show', default=None)
+    c.add_argument('--job', default=None, help='run only the scenarios whose name#label contains this')
     c.add_argument('-v', '--verbose', action='store_true')
     r = sub.add_parser('replay')
     r.add_argument('path')
